@@ -332,7 +332,11 @@ VP_HARNESS(h_rank)
     for (unsigned i = 1; i < NK; i++) if (i < n) VP_CHECK(T.cpukinds[i-1].forced_efficiency < T.cpukinds[i].forced_efficiency, "ranking follows the forced efficiencies");
   }
   if (n >= 2 && e == 2) VP_CHECK(allunk, "HWLOC_CPUKINDS_RANKING=none leaves efficiencies unknown");
+  #if NK <= 2
   VP_WITNESS_IF(n == NK && ident && e == 6 && kset(0) != 1, "kinds reordered by frequency");
+#else      /* the pool has two non-zero frequencies: three kinds cannot all differ by frequency alone */
+  VP_WITNESS_IF(n == NK && ident && kset(0) != 1, "kinds reordered");
+#endif
   VP_WITNESS_IF(n == NK && allunk && e == 4, "strict strategy failing");
 }
 
